@@ -19,6 +19,7 @@ B  every row TLC printed is serialised and delivered to the real entry point und
      station.ingest     lib.parseRegMessage + ingestRegistration, real transports min/obfs4/prefix/dtls registered
      station.wrap       WrapConnection of min / prefix / obfs4 with first-flight classes, registrations present or not
      transport.params   ParseParams / GetDstPort / ParamStrings of min / obfs4 / prefix / dtls
+     dtls.connect       dtls.Transport.Connect (real DNAT packet construction, no peer) with every parameter shape
      regproc            RegisterBidirectional / RegisterUnidirectional / processBdReq / processC2SWrapper
      api                raw HTTP requests to a real net/http server routed like APIRegServer.ListenAndServe, real
                         RegProcessor behind it; observed at the client: status line or connection closed without one
@@ -29,7 +30,8 @@ B  every row TLC printed is serialised and delivered to the real entry point und
      msgformat/rdatatxt Remove{Request,Response}Format, DecodeRDataTXT with their complete neighbourhoods
    A panic the harness cannot recover (a goroutine of the code under test) kills the test binary; the row in flight is
    read from the progress marker, reported, and the driver resumed behind it.
-Violation keys: <panic|nostatus|hang>:<top non-runtime frame>:<entry point>:<smallest field-class combination that does it>.
+Violation keys: <panic|nostatus|hang>:<site>:<entry point>:<field classes the failing rows have in common>
+(site = top non-runtime frame of the panic stack; for a hang the innermost frame of the repository's code in the stuck goroutine).
 """
 import copy, json, os, re, threading, time
 import vlib
@@ -44,6 +46,9 @@ CHAINS = {
                 drivers=[("station.ingest", "TestVerifWireIngest", ["station.ingest"]),
                          ("station.wrap", "TestVerifWireWrap", ["station.wrap"]),
                          ("transport.params", "TestVerifWireParams", ["transport.params"])]),
+    "dtls": dict(pkg="pkg/transports/connecting/dtls", pkgname="dtls", files=COMMON + ["pkg_transports_dtls/wire_dtls_verif_test.go"],
+                 extra=[("pkg/dtls/dnat", ["pkg_dtls_dnat/wire_bridge_verif.go"], "dnat")],
+                 drivers=[("dtls.connect", "TestVerifWireDtlsConnect", ["dtls.connect"])]),
     "regprocessor": dict(pkg="pkg/regserver/regprocessor", pkgname="regprocessor",
                          files=COMMON + ["pkg_regprocessor/wire_bridge_verif.go", "pkg_regprocessor/wire_verif_test.go"], extra=None,
                          drivers=[("regproc", "TestVerifWireRegproc", ["regproc"])]),
@@ -57,6 +62,7 @@ CHAINS = {
 }
 MESSAGE_EPS = ["station.ingest", "regproc", "api", "dnsreg", "responder"]
 MAX_RESTARTS = 15
+MAX_SAME_SITE = 4
 
 
 def clean_site(s):
@@ -97,6 +103,7 @@ def split_rows(beh_file, scratch, tag):
     trig = {}
     nominal = {}
     samples = []
+    domain = {}
     with open(beh_file) as fi:
         for line in fi:
             h = hash(line)
@@ -112,13 +119,16 @@ def split_rows(beh_file, scratch, tag):
             counts[d] += 1
             for g in row["triggers"]:
                 trig[g] = trig.get(g, 0) + 1
+            dm = domain.setdefault(row["ep"], {})
+            for k, v in row["f"].items():
+                dm.setdefault(k, set()).add(v)
             if row["nominal"]:
                 nominal.setdefault(row["ep"], []).append(row["f"])
             if len(samples) < 3 and row["triggers"]:
                 samples.append(row)
     for f in files.values():
         f.close()
-    return {d: (files[d].name, counts[d]) for d in files}, trig, nominal, samples
+    return {d: (files[d].name, counts[d]) for d in files}, trig, nominal, samples, domain
 
 
 def run_driver(c, ch, name, test, rows_path, nrows, env, log):
@@ -161,20 +171,25 @@ def run_driver(c, ch, name, test, rows_path, nrows, env, log):
                         "unrecoverable": True})
         log("driver %s died at row %d%s (%s at %s); resuming behind it" % (name, idx, " " + variant if variant else "", m.group(1)[:80], crashes[-1]["site"]))
         start = idx + 1
+        same = [x for x in crashes if x["site"] == crashes[-1]["site"]]
+        if len(same) >= MAX_SAME_SITE:
+            log("driver %s: %d crashes at %s - not resuming this driver (rows behind row %d are not executed in this run)" % (name, len(same), crashes[-1]["site"], idx))
+            start = nrows
         if start >= nrows:
             records.append({"kind": "summary", "rows": 0, "deliveries": 0, "counts": {}, "disagreements": 0, "nominal_not_accepted": 0, "partial": True})
             return records, crashes
     raise vlib.InfraError("driver %s died more than %d times" % (name, MAX_RESTARTS))
 
 
-def delta(f, nominals):
-    """the field classes in which f differs from the closest nominal row of its entry point"""
-    best = None
-    for n in nominals or [{}]:
-        d = sorted("%s=%s" % (k, v) for k, v in f.items() if n.get(k) != v)
-        if best is None or (len(d), d) < (len(best), best):
-            best = d
-    return best or []
+def combination(fs, domain):
+    """the field classes that matter for a set of failing rows: a field is named when the failing rows do not show all of
+    its classes; it is named with every class the failing rows do show (payload=absent,clientconf=equal|newer|older)"""
+    parts = []
+    for k in sorted(domain):
+        seen = {f.get(k) for f in fs if k in f}
+        if seen and seen != domain[k] and len(seen) < len(domain[k]):
+            parts.append("%s=%s" % (k, "|".join(sorted(seen))))
+    return ",".join(parts) or "any"
 
 
 def run(ctx):
@@ -214,9 +229,12 @@ def run(ctx):
 
     # ------------------------------------------------------------------ rows
     work = []          # (chain, driver name, test, rows path, n)
-    trig_total, nominals = {}, {}
+    trig_total, nominals, domains = {}, {}, {}
     for tag, r in runs:
-        per, trig, nom, samples = split_rows(r["beh_file"], ctx.scratch, tag)
+        per, trig, nom, samples, dom = split_rows(r["beh_file"], ctx.scratch, tag)
+        for e, dm in dom.items():
+            for k, v in dm.items():
+                domains.setdefault(e, {}).setdefault(k, set()).update(v)
         os.unlink(r["beh_file"])
         for k, v in trig.items():
             trig_total[k] = trig_total.get(k, 0) + v
@@ -270,7 +288,7 @@ def run(ctx):
     # ------------------------------------------------------------------ verdicts
     total_rows = total_deliv = 0
     counts, disagreements, notes = {}, [], []
-    anomalies = {}     # (what, site, ep) -> list of (delta, variant, record)
+    anomalies = {}     # (what, site, ep) -> list of (variant, record)
     accepted_by = {}
     for (name, tag), (recs, crashes, path, n) in sorted(results.items()):
         summ = [r for r in recs if r.get("kind") == "summary"]
@@ -290,7 +308,7 @@ def run(ctx):
                 disagreements.append(r)
             elif r.get("kind") == "anomaly":
                 key = (r["what"], clean_site(r.get("site")), r["ep"])
-                anomalies.setdefault(key, []).append((delta(r["f"], nominals.get(r["ep"])), r.get("variant", ""), r))
+                anomalies.setdefault(key, []).append((r.get("variant", ""), r))
         if crashes:
             rows = None
             for cr in crashes:
@@ -300,25 +318,23 @@ def run(ctx):
                 rec = {"what": cr["what"], "ep": row["ep"], "idx": cr["idx"], "f": row["f"], "variant": cr["variant"], "site": cr["site"],
                        "panic": cr["panic"], "stack": cr["stack"], "detail": "the test binary died: the panic was in a goroutine of the code under test"}
                 key = (cr["what"], clean_site(cr["site"]), row["ep"])
-                anomalies.setdefault(key, []).append((delta(row["f"], nominals.get(row["ep"])), cr["variant"], rec))
+                anomalies.setdefault(key, []).append((cr["variant"], rec))
     if "station.wrap" in [w[1] for w in work]:
         for tr in ("min", "prefix", "obfs4"):
             if not accepted_by.get(tr):
                 raise vlib.InfraError("station.wrap: no genuine %s first flight was accepted - the flight classes are not anchored on valid flights" % tr)
     for (what, site, ep), items in sorted(anomalies.items()):
-        plain = sorted([(len(d), d) for (d, v, r) in items if not v or v == "parse"])
+        plain = [r["f"] for (v, r) in items if not v or v == "parse"]
         if plain:
-            combo = ",".join(plain[0][1]) or "nominal"
-            others = sorted({",".join(d) for (_n, d) in plain if len(d) == plain[0][0]})[:6]
+            combo = combination(plain, domains.get(ep, {}))
         else:
-            mut = sorted([(len(d), d, v) for (d, v, r) in items])
-            combo = "mut=%s,%s" % (re.sub(r"@.*", "", mut[0][2]), ",".join(mut[0][1]) or "nominal")
-            others = []
-        rec = items[0][2]
+            kinds = sorted({re.sub(r"@.*", "", v).replace("parse", "") for (v, r) in items})
+            combo = "mut=%s,%s" % ("|".join(kinds), combination([r["f"] for (v, r) in items], domains.get(ep, {})))
+        rec = next((r for (v, r) in items if r.get("stack") or r.get("panic") or r.get("detail")), items[0][1])
         key = "%s:%s:%s:%s" % (what, site, ep, combo)
         desc = {"panic": "panics", "nostatus": "closes the connection without an HTTP status line", "hang": "does not return"}[what]
-        ctx.violation(key, "%s %s (%s) for %s [%d input(s) of this run; same size: %s] %s" %
-                      (ep, desc, site, combo, len(items), others, (rec.get("panic") or rec.get("detail") or "")[:200]),
+        ctx.violation(key, "%s %s (%s) for %s [%d input(s) of this run] %s" %
+                      (ep, desc, site, combo, len(items), (rec.get("panic") or rec.get("detail") or "")[:200]),
                       {"record": {k: rec.get(k) for k in ("ep", "f", "variant", "panic", "detail", "site")}, "stack": (rec.get("stack") or "")[:4000],
                        "occurrences": len(items)})
     if disagreements:
